@@ -190,6 +190,9 @@ func (s *seekableDecryptingReader) loadSegment(j int64) error {
 		nonce[tinkNoncePrefixSize+4] = 1
 	}
 
+	// Open reuses (and, on failure, clears) the buffer of the segment loaded
+	// before: that segment is no longer available whatever the outcome.
+	s.segIndex = -1
 	plaintext, err := s.cipher.Open(s.plaintext[:0], nonce, segment, nil)
 	if err != nil {
 		return fmt.Errorf("segment %d decryption failed: %w", j, err)
